@@ -13,7 +13,8 @@ S->C : Gen_Pipeline exports one shortest witness program per abstract
        command x "last two commands identical"); a stratified seeded sample is
        run as REAL sub-processes on synthetic NIfTI volumes and PNG/TIFF slice
        stacks (data types, channels, RGB, header value scaling with and
-       without --ignore-scaling, anisotropy, thick slices, 1-3 scales,
+       without --ignore-scaling, --input-min/--input-max, chunk-aligned zero
+       background and all-zero volumes, anisotropy, thick slices, 1-3 scales,
        orientation codes, layouts flat/gzip, sharding), plus directed programs
        of the environment class "obstructed destination" (a regular file where
        the last scale's directory must be created, plain and sharded),
@@ -132,6 +133,13 @@ def pick_volume(rng, cmds, turn=0, allow_rgb=True):
         spec["shape"] = shape + [int(klass[-1])]
     if klass == "uint8:rgb" and allow_rgb:
         spec["rgb"] = True
+    if "Convert" in ops:
+        # sources with ENTIRELY zero chunks: a chunk-aligned slab of background (128 voxels along
+        # the longest axis: a multiple of every chunk size in use), now and then an all-zero volume
+        if turn % 2 == 0 and max(spec["shape"][:3]) >= 140:
+            spec["zero_slab"] = 128
+        elif turn % 4 == 1:
+            spec["allzero"] = True
     spec["nall"] = min(3, pd.n_levels(spec["shape"], voxel))
     if pd.n_levels(spec["shape"], voxel) > 3:
         raise tlc.MachineryError("volume class with more than 3 scales: %r" % spec)
